@@ -24,11 +24,12 @@ RI(st, ct) == EncRouterInfo(Id(st, ct), st, Zeros(8), << Addr >>, 0, Opts, 5)
 
 Slots(fn, base, typ) == SlotsOf(fn, base, typ)
 \* positions to flip: spread over the covered region and the signature (every byte in the thorough tier)
-FlipPositions(sl, n) ==
+FlipPositions(sl, structural) ==
   LET total == sl.sigoff + sl.siglen
       step == IF Thorough THEN 1 ELSE Max(total \div 28, 1) IN
   [k \in 1..((total + step - 1) \div step) |-> (k - 1) * step] \o << sl.idoff, sl.idoff + sl.idlen - 1, sl.sigoff - 1, sl.sigoff, total - 1 >>
   \o (IF sl.off THEN << sl.keyoff, sl.keyoff + sl.keylen - 1, sl.osigoff, sl.osigoff + sl.osiglen - 1, sl.from, sl.from + 4 >> ELSE << >>)
+  \o structural
 Probe(fn, base, st, typ, adv, stream) ==
   LET sl == Slots(fn, base, typ) IN
   [op |-> "SignedProbe", fn |-> fn, base |-> base, st |-> st, typ |-> typ, prefix |-> StoreTypePrefix(fn),
@@ -36,13 +37,13 @@ Probe(fn, base, st, typ, adv, stream) ==
   @@ (IF sl.off THEN [offline |-> [keyoff |-> sl.keyoff, keylen |-> sl.keylen, tst |-> (IF fn = "ReadEncryptedLeaseSet" THEN RefEncryptedLeaseSet(base).tst
                                                                                         ELSE IF fn = "ReadLeaseSet2" THEN RefLeaseSet2(base).h.tst ELSE RefMetaLeaseSet(base).h.tst),
                                    sigoff |-> sl.osigoff, siglen |-> sl.osiglen, from |-> sl.from, to |-> sl.to]] ELSE << >>)
-Steps(sl) ==
+Steps(sl, structural) ==
   << [kind |-> "none"], [kind |-> "replace_sig"], [kind |-> "swap_idkey"], [kind |-> "resign_after_edit", off |-> sl.sigoff - 3] >>
   \o (IF sl.off THEN << [kind |-> "forge_offline"], [kind |-> "transplant_offline"], [kind |-> "wrong_scheme"] >> ELSE << >>)
-  \o SeqMap(LAMBDA p : [kind |-> "flip", off |-> p, mask |-> 1], FlipPositions(sl, 0))
-  \o SeqMap(LAMBDA p : [kind |-> "flip", off |-> p, mask |-> 128], SubSeq(FlipPositions(sl, 0), 1, 6))
+  \o SeqMap(LAMBDA p : [kind |-> "flip", off |-> p, mask |-> 1], FlipPositions(sl, structural))
+  \o SeqMap(LAMBDA p : [kind |-> "flip", off |-> p, mask |-> 128], SubSeq(FlipPositions(sl, structural), 1, 6) \o structural)
 Session(fn, base, st, typ, salt) ==
-  LET sl == Slots(fn, base, typ)  steps == Steps(sl) IN
+  LET sl == Slots(fn, base, typ)  steps == Steps(sl, StructuralOffsets(fn, base, typ)) IN
   [ops |-> [k \in 1..Len(steps) |-> Probe(fn, base, st, typ, steps[k], salt * 1000 + k)]]
 
 SigTs == << 7, 11 >>
